@@ -169,15 +169,18 @@ fn run_case(_i: usize, mut rng: jjv::Rng) -> CaseOut {
     let mut all_ok = true;
     for t in &trees {
         let tm = write_tree(&store, t);
+        fs_trace_start();
         let res = outcome(ws.check_out(&tm));
+        let calls = fs_trace_stop(&ws.root);
         panicked |= res == Outcome::Panic;
         all_ok &= matches!(res, Outcome::Ok(_));
         let disk = list_disk(&ws.root);
         let states = ws.file_states();
         steps.push(format!(
-            "(C24Chk.mk_step {} {} {} {})",
+            "(C24Chk.mk_step {} {} {} {} {})",
             coq_tree(t),
             coq_outcome(&res),
+            coq_calls(&calls),
             coq_disk(&disk),
             coq_states(&states)
         ));
@@ -222,6 +225,7 @@ fn main() {
     jjv::run("C24", "C24", |ctx| {
         // TestEnvironment creates its directories under TMPDIR: keep them in our scratch
         unsafe { std::env::set_var("TMPDIR", &ctx.scratch) };
+        install_fs_trace();
         let outs = par_cases(ctx, run_case);
         for (i, o) in outs {
             if o.panicked {
